@@ -245,11 +245,60 @@ def check_group(ctx, case):
             return
 
 
+# -- the identities hold at every moment: after the data under an existing estimate changed, too ------------------------------
+@st.composite
+def changing_case(draw):
+    from vlib import thermogen as TG
+    n = draw(st.integers(1, 3))
+    specs = [draw(TG.group_spec(cp='yes', H='yes', S='yes', with_range='yes')) for _ in range(n)]
+    return dict(kind='changing', specs=specs, counts=[draw(st.sampled_from([1, 2, 0.5, -1, 3])) for _ in range(n)],
+                dH=draw(st.sampled_from([2.5, -7.0, 40.0])), dS=draw(st.sampled_from([0.0, 1.5, -3.0])), which=draw(st.integers(0, 2)),
+                units=draw(st.lists(st.sampled_from(consts()['units']), min_size=2, max_size=4, unique=True)), tf=draw(st.floats(0.05, 0.95)))
+
+
+def check_changing(ctx, case):
+    from vlib import thermogen as TG
+    specs = case['specs']
+    lib = TG.build_library(specs)
+    mapping = {'G%d' % i: c for i, c in enumerate(case['counts'])}
+    rs = [s['range'] for s in specs]
+    lo, hi = max(r[0] for r in rs), min(r[1] for r in rs)
+    if not lo < hi:
+        ctx.event('skip:empty-range')
+        return
+    try:
+        est = lib.Estimate(mapping, 'thermochem')
+    except Exception:
+        ctx.event('skip:estimate-refused')
+        return
+    T = lo + (hi - lo) * case['tf']
+    label = 'synthetic estimate over %d groups' % len(specs)
+    ctx.case(nontrivial=True, key=['changing', specs, case['counts'], case['dH'], case['dS']], sample=dict(groups=len(specs), T=T, units=case['units']))
+    identities(ctx, est, T, case['units'], label, None)
+    g0 = (quiet(est.get_GoRT, T), quiet(est.get_HoRT, T), quiet(est.get_SoR, T))
+    # new reference values for one constituent (an overwriting merge, as a later data file would do)
+    k = case['which'] % len(specs)
+    sp = specs[k]
+    donor = TG.build_group(dict(H=sp['H'] + case['dH'], S=sp['S'] + case['dS'], Ts=[], Cps=[], T_ref=sp['T_ref'], range=None))
+    try:
+        lib['G%d' % k]['thermochem'].update(donor, overwrite=True)
+    except Exception as e:
+        ctx.fail('overwriting-update-raises:%s' % type(e).__name__, 'update(overwrite=True) with new H_ref/S_ref raised %s: %s' % (type(e).__name__, e))
+        return
+    ctx.event('changing:group-data-overwritten')
+    identities(ctx, est, T, case['units'], label + ' (after the reference values of one of its groups were overwritten)', None)
+    g1 = (quiet(est.get_GoRT, T), quiet(est.get_HoRT, T), quiet(est.get_SoR, T))
+    ctx.count()
+    if abs(g1[0] - (g1[1] - g1[2])) > 1e-10 * max(1.0, abs(g1[1]), abs(g1[2])):
+        ctx.fail('G-not-H-minus-S:after-data-change', '[%s] G/RT(%r) = %r, H/RT - S/R = %r (before the change: %r)' % (label, T, g1[0], g1[1] - g1[2], g0))
+
+
 def check_any(ctx, case):
-    return {'estimate': check_estimate, 'group': check_group}[case['kind']](ctx, case)
+    return {'estimate': check_estimate, 'group': check_group, 'changing': check_changing}[case['kind']](ctx, case)
 
 
 FAMILIES = [
     Family('estimates', check_any, strategy=lambda tier: estimate_case(), n=(3000, 100000)),
     Family('groups', check_any, enumerate=enum_groups),
+    Family('changing-data', check_any, strategy=lambda tier: changing_case(), n=(600, 20000)),
 ]
